@@ -435,41 +435,83 @@ theorem C10_bset (o : Oracles) (st : Exec) (l : Bytes) (i v : U256)
     simp [h, this]
   · simp [h]
 
+/-! The six instructions that grow a byte string or a vector fail when the result's length would not fit a
+    `usize` (`USIZE_MAX`; fix for F13: the ropes' length counter used to overflow there).  Each law therefore
+    carries the hypothesis that the result's length fits — every list a machine can hold satisfies it — and has
+    a companion `…_too_long` for the failing case. -/
+
 /-- first popped ++ second popped -/
 theorem C10_vappend (o : Oracles) (st : Exec) (l1 l2 : List Value) (rest : List Value)
-    (hs : st.stack = .vec l1 :: .vec l2 :: rest) :
+    (hs : st.stack = .vec l1 :: .vec l2 :: rest) (hfit : l1.length + l2.length ≤ USIZE_MAX) :
     execOp o .vappend st = some (st.next (.vec (l1 ++ l2) :: rest)) := by
-  simp [execOp, binop, hs, Value.intoVec]
+  have hn : ¬ l1.length + l2.length > USIZE_MAX := by omega
+  simp [execOp, binop, hs, Value.intoVec, hn]
+
+/-- … and the step fails when the appended vector would be longer than `USIZE_MAX` -/
+theorem C10_vappend_too_long (o : Oracles) (st : Exec) (l1 l2 : List Value) (rest : List Value)
+    (hs : st.stack = .vec l1 :: .vec l2 :: rest) (hbig : l1.length + l2.length > USIZE_MAX) :
+    execOp o .vappend st = none := by
+  simp [execOp, binop, hs, Value.intoVec, hbig]
 
 theorem C10_bappend (o : Oracles) (st : Exec) (l1 l2 : Bytes) (rest : List Value)
-    (hs : st.stack = .bytes l1 :: .bytes l2 :: rest) :
+    (hs : st.stack = .bytes l1 :: .bytes l2 :: rest) (hfit : l1.length + l2.length ≤ USIZE_MAX) :
     execOp o .bappend st = some (st.next (.bytes (l1 ++ l2) :: rest)) := by
-  simp [execOp, binop, hs, Value.intoBytes]
+  have hn : ¬ l1.length + l2.length > USIZE_MAX := by omega
+  simp [execOp, binop, hs, Value.intoBytes, hn]
+
+theorem C10_bappend_too_long (o : Oracles) (st : Exec) (l1 l2 : Bytes) (rest : List Value)
+    (hs : st.stack = .bytes l1 :: .bytes l2 :: rest) (hbig : l1.length + l2.length > USIZE_MAX) :
+    execOp o .bappend st = none := by
+  simp [execOp, binop, hs, Value.intoBytes, hbig]
 
 /-- vector on top, item second: appended at the end -/
 theorem C10_vpush (o : Oracles) (st : Exec) (l : List Value) (x : Value) (rest : List Value)
-    (hs : st.stack = .vec l :: x :: rest) :
+    (hs : st.stack = .vec l :: x :: rest) (hfit : l.length + 1 ≤ USIZE_MAX) :
     execOp o .vpush st = some (st.next (.vec (l ++ [x]) :: rest)) := by
-  simp [execOp, binop, hs, Value.intoVec]
+  have hn : ¬ l.length + 1 > USIZE_MAX := by omega
+  simp [execOp, binop, hs, Value.intoVec, hn]
+
+theorem C10_vpush_too_long (o : Oracles) (st : Exec) (l : List Value) (x : Value) (rest : List Value)
+    (hs : st.stack = .vec l :: x :: rest) (hbig : l.length + 1 > USIZE_MAX) :
+    execOp o .vpush st = none := by
+  simp [execOp, binop, hs, Value.intoVec, hbig]
 
 /-- item on top, vector second: added at the front -/
 theorem C10_vcons (o : Oracles) (st : Exec) (l : List Value) (x : Value) (rest : List Value)
-    (hs : st.stack = x :: .vec l :: rest) :
+    (hs : st.stack = x :: .vec l :: rest) (hfit : l.length + 1 ≤ USIZE_MAX) :
     execOp o .vcons st = some (st.next (.vec (x :: l) :: rest)) := by
-  simp [execOp, binop, hs, Value.intoVec]
+  have hn : ¬ l.length + 1 > USIZE_MAX := by omega
+  simp [execOp, binop, hs, Value.intoVec, hn]
+
+theorem C10_vcons_too_long (o : Oracles) (st : Exec) (l : List Value) (x : Value) (rest : List Value)
+    (hs : st.stack = x :: .vec l :: rest) (hbig : l.length + 1 > USIZE_MAX) :
+    execOp o .vcons st = none := by
+  simp [execOp, binop, hs, Value.intoVec, hbig]
 
 /-- the integer is truncated to its low byte -/
 theorem C10_bpush (o : Oracles) (st : Exec) (l : Bytes) (v : U256) (rest : List Value)
-    (hs : st.stack = .bytes l :: .int v :: rest) :
+    (hs : st.stack = .bytes l :: .int v :: rest) (hfit : l.length + 1 ≤ USIZE_MAX) :
     execOp o .bpush st =
       some (st.next (.bytes (l ++ [UInt8.ofNat (v.toNat % 256)]) :: rest)) := by
-  simp [execOp, binop, hs, Value.intoBytes, Value.intoTruncU8]
+  have hn : ¬ l.length + 1 > USIZE_MAX := by omega
+  simp [execOp, binop, hs, Value.intoBytes, Value.intoTruncU8, hn]
+
+theorem C10_bpush_too_long (o : Oracles) (st : Exec) (l : Bytes) (v : U256) (rest : List Value)
+    (hs : st.stack = .bytes l :: .int v :: rest) (hbig : l.length + 1 > USIZE_MAX) :
+    execOp o .bpush st = none := by
+  simp [execOp, binop, hs, Value.intoBytes, Value.intoTruncU8, hbig]
 
 theorem C10_bcons (o : Oracles) (st : Exec) (l : Bytes) (v : U256) (rest : List Value)
-    (hs : st.stack = .int v :: .bytes l :: rest) :
+    (hs : st.stack = .int v :: .bytes l :: rest) (hfit : l.length + 1 ≤ USIZE_MAX) :
     execOp o .bcons st =
       some (st.next (.bytes (UInt8.ofNat (v.toNat % 256) :: l) :: rest)) := by
-  simp [execOp, binop, hs, Value.intoBytes, Value.intoTruncU8]
+  have hn : ¬ l.length + 1 > USIZE_MAX := by omega
+  simp [execOp, binop, hs, Value.intoBytes, Value.intoTruncU8, hn]
+
+theorem C10_bcons_too_long (o : Oracles) (st : Exec) (l : Bytes) (v : U256) (rest : List Value)
+    (hs : st.stack = .int v :: .bytes l :: rest) (hbig : l.length + 1 > USIZE_MAX) :
+    execOp o .bcons st = none := by
+  simp [execOp, binop, hs, Value.intoBytes, Value.intoTruncU8, hbig]
 
 theorem C10_vempty (o : Oracles) (st : Exec) :
     execOp o .vempty st = some (st.next (.vec [] :: st.stack)) := by
@@ -1023,11 +1065,17 @@ end Examples
 #print axioms C10_bset_actual
 #print axioms C10_bset
 #print axioms C10_vappend
+#print axioms C10_vappend_too_long
 #print axioms C10_bappend
+#print axioms C10_bappend_too_long
 #print axioms C10_vpush
+#print axioms C10_vpush_too_long
 #print axioms C10_vcons
+#print axioms C10_vcons_too_long
 #print axioms C10_bpush
+#print axioms C10_bpush_too_long
 #print axioms C10_bcons
+#print axioms C10_bcons_too_long
 #print axioms C10_vempty
 #print axioms C10_bempty
 #print axioms C10_vlength
